@@ -44,6 +44,8 @@ def seq_cases(draw):
         elif k == "write":
             steps.append(("write", draw(st.one_of(st.binary(min_size=1, max_size=40), st.integers(1, 70000).map(lambda n: bytes(i % 253 for i in range(n))))), draw(timeouts()),
                           draw(st.one_of(st.just(None), st.integers(1, 70000)))))      # backend accepts at most this many bytes
+        elif k == "connect":
+            steps.append(("connect", draw(st.sampled_from([None, 0, 0.25, 1.0, 30]))))     # connect's own timeout never becomes the default of later calls
         else:
             steps.append((k,))
     return {"steps": steps, "default_timeout": draw(st.sampled_from([None, 2, 7.5])), "error_at": draw(st.one_of(st.none(), st.integers(0, 10))),
@@ -104,7 +106,7 @@ def check_seq(case):
             with warnings.catch_warnings():
                 warnings.simplefilter("ignore")
                 if step[0] == "connect":
-                    tr.connect(1.0)
+                    tr.connect(step[1] if len(step) > 1 else 1.0)
                     new = W.calls[ncalls:]
                     if ("claimInterface", fakeusb1.IFACE) not in new:
                         return Violation("interface-not-claimed", "connect() made backend calls %r" % (new,)), info
